@@ -133,6 +133,9 @@ func runC01(c *Ctx) {
 	// R8: the "nothing" half: every persistent commit step has its undo in the rollback ladder.
 	r8 := c.Rule("R8", "undo table: every persistent commit step of phase1Commit has a block in the live rollback guarded by `committedState OP step` with an operator that covers every state in which the step may have acted, the block calls the step's undo function, and no exit bypasses a guard (shared with C07.R1)", 25)
 	commitUndoRules(c, r8, "", "", "", "")
+
+	r9 := c.Rule("R9", "positional pairing of the rollback store infos with the backends' created flags (shared with C06.R5): the count reversal of a failed commit is applied to the right stores", 3)
+	positionalPairingRule(c, r9)
 	_ = ast.Inspect
 }
 
